@@ -1,30 +1,37 @@
-(* C11: executable (rational-angle) model of tree_walk.bottom_up on an angle tree with qubits, as compared with the flattened
-   definition of DcspInitialize on every run, its link to the real-valued model of Dcsp.v, and the path weights. *)
+(* C11: executable (rational-angle) model of the circuits of DcspInitialize / BdspInitialize on an angle tree with qubits:
+   the sub-circuits of the sub-registers below the split (tree_walk.top_down; none for the divide-and-conquer initializer)
+   followed by tree_walk.bottom_up.  Compared with the flattened definitions on every run.  Link to the real-valued model of
+   Dcsp.v, executable premises, and the path weights. *)
 From Coq Require Import Reals Lra List Bool Arith Lia QArith Qreals.
+From Coquelicot Require Import Complex.
 From QV Require Import Sem Dcsp DcspMarg SumQ.
 Import ListNotations.
 Open Scope nat_scope.
 
-Inductive qtree := QLeaf | QNode (q : nat) (ay az : Q) (l r : qtree).
-Inductive qgate := QRY (th : Q) (q : nat) | QRZ (th : Q) (q : nat) | QCSWAP (c a b : nat).
+Inductive qgate := QRY (th : Q) (q : nat) | QRZ (th : Q) (q : nat) | QCSWAP (c a b : nat) | QEnt (e : ent) (c t : nat).
+Inductive qtree := QLeaf | QNode (q : nat) (ay az : Q) (l r : qtree) | QSub (qs : list nat) (c : list qgate).
 
-Fixpoint qchain (t : qtree) : list nat := match t with QLeaf => [] | QNode q _ _ l _ => q :: qchain l end.
-Fixpoint qqubits (t : qtree) : list nat := match t with QLeaf => [] | QNode q _ _ l r => q :: qqubits l ++ qqubits r end.
-Fixpoint qbalanced (d : nat) (t : qtree) : bool :=
-  match d, t with
-  | O, QLeaf => true
-  | S d', QNode _ _ _ l r => qbalanced d' l && qbalanced d' r
-  | _, _ => false
+Fixpoint qchain (t : qtree) : list nat := match t with QLeaf => [] | QNode q _ _ l _ => q :: qchain l | QSub qs _ => qs end.
+Fixpoint qqubits (t : qtree) : list nat :=
+  match t with QLeaf => [] | QNode q _ _ l r => q :: qqubits l ++ qqubits r | QSub qs _ => qs end.
+Fixpoint qbalanced (d : nat) (t : qtree) {struct t} : bool :=
+  match t with
+  | QLeaf => Nat.eqb d 0
+  | QNode _ _ _ l r => match d with O => false | S d' => qbalanced d' l && qbalanced d' r end
+  | QSub qs _ => Nat.eqb (length qs) d
   end.
 Definition qz (x : Q) : bool := Qeq_bool x 0.
 Fixpoint bottom_up_q (t : qtree) : list qgate :=
   match t with
-  | QLeaf => []
   | QNode q ay az l r =>
       (if qz ay then [] else [QRY ay q]) ++ (if qz az then [] else [QRZ az q])
       ++ bottom_up_q l ++ bottom_up_q r
       ++ (if qz ay then [] else map (fun p => QCSWAP q (fst p) (snd p)) (combine (qchain l) (qchain r)))
+  | _ => []
   end.
+Fixpoint subs_q (t : qtree) : list qgate :=
+  match t with QLeaf => [] | QNode _ _ _ l r => subs_q l ++ subs_q r | QSub _ c => c end.
+Definition bdsp_gates_q (t : qtree) : list qgate := subs_q t ++ bottom_up_q t.
 
 (* executable well-formedness premises of the theorem *)
 Fixpoint nodupb (l : list nat) : bool :=
@@ -37,12 +44,27 @@ Proof.
   { apply existsb_exists. exists a. split; auto. apply Nat.eqb_refl. }
   congruence.
 Qed.
+Definition qgq (g : qgate) : list nat :=
+  match g with QRY _ q | QRZ _ q => [q] | QCSWAP c a b => [c; a; b] | QEnt _ c t => [c; t] end.
+Definition memb (p : nat) (qs : list nat) : bool := existsb (Nat.eqb p) qs.
+Fixpoint localb (t : qtree) : bool :=
+  match t with
+  | QLeaf => true
+  | QNode _ _ _ l r => localb l && localb r
+  | QSub qs c => forallb (fun g => forallb (fun p => memb p qs) (qgq g)) c
+  end.
 
 (* link to the real-valued model *)
-Fixpoint treeR (t : qtree) : atree :=
-  match t with QLeaf => ALeaf | QNode q ay az l r => ANode q (Q2R ay) (Q2R az) (treeR l) (treeR r) end.
 Definition gateR (g : qgate) : dgate :=
-  match g with QRY th q => DRY (Q2R th) q | QRZ th q => DRZ (Q2R th) q | QCSWAP c a b => DCSWAP c a b end.
+  match g with
+  | QRY th q => DRY (Q2R th) q | QRZ th q => DRZ (Q2R th) q | QCSWAP c a b => DCSWAP c a b | QEnt e c t => DEnt e c t
+  end.
+Fixpoint treeR (t : qtree) : atree :=
+  match t with
+  | QLeaf => ALeaf
+  | QNode q ay az l r => ANode q (Q2R ay) (Q2R az) (treeR l) (treeR r)
+  | QSub qs c => ASub qs (map gateR c)
+  end.
 
 Lemma qz_rz0 x : rz0 (Q2R x) = qz x.
 Proof.
@@ -51,66 +73,111 @@ Proof.
   - exfalso. apply E. apply Qeq_bool_eq in B. rewrite (Qeq_eqR _ _ B). unfold Q2R. simpl. lra.
 Qed.
 Lemma chain_treeR t : chain (treeR t) = qchain t.
-Proof. induction t as [|q ay az l IHl r IHr]; simpl; auto. now rewrite IHl. Qed.
+Proof. induction t as [|q ay az l IHl r IHr|qs c]; simpl; auto. now rewrite IHl. Qed.
 Lemma qubits_treeR t : qubits (treeR t) = qqubits t.
-Proof. induction t as [|q ay az l IHl r IHr]; simpl; auto. now rewrite IHl, IHr. Qed.
+Proof. induction t as [|q ay az l IHl r IHr|qs c]; simpl; auto. now rewrite IHl, IHr. Qed.
 Lemma balanced_treeR t : forall d, qbalanced d t = true -> balanced d (treeR t).
 Proof.
-  induction t as [|q ay az l IHl r IHr]; intros d H; destruct d; simpl in *; try discriminate; auto.
-  apply andb_prop in H as [H1 H2]. split; auto.
+  induction t as [|q ay az l IHl r IHr|qs c]; intros d H; simpl in *.
+  - now apply Nat.eqb_eq in H.
+  - destruct d; [discriminate|]. apply andb_prop in H as [H1 H2]. split; auto.
+  - now apply Nat.eqb_eq in H.
+Qed.
+Lemma gq_gateR g : gq (gateR g) = qgq g.
+Proof. now destruct g. Qed.
+Lemma wfsub_treeR t : localb t = true -> wfsub (treeR t).
+Proof.
+  induction t as [|q ay az l IHl r IHr|qs c]; intros H; simpl in *; auto.
+  - apply andb_prop in H as [H1 H2]. split; auto.
+  - apply Forall_forall. intros g Hg. apply in_map_iff in Hg as [g' [<- Hg']].
+    rewrite forallb_forall in H. specialize (H g' Hg'). rewrite forallb_forall in H.
+    intros p Hp. rewrite gq_gateR in Hp. specialize (H p Hp). unfold memb in H.
+    apply existsb_exists in H as [x [Hx E]]. apply Nat.eqb_eq in E. now subst.
 Qed.
 Lemma bottom_up_link t : map gateR (bottom_up_q t) = bottom_up (treeR t).
 Proof.
-  induction t as [|q ay az l IHl r IHr]. reflexivity.
+  induction t as [|q ay az l IHl r IHr|qs c]; try reflexivity.
   cbn [bottom_up_q bottom_up treeR]. rewrite !map_app, IHl, IHr, !qz_rz0.
   unfold cswaps, pairs. rewrite !chain_treeR.
   destruct (qz ay); destruct (qz az); cbn [map]; rewrite ?map_map; reflexivity.
 Qed.
+Lemma subs_link t : map gateR (subs_q t) = subs (treeR t).
+Proof. induction t as [|q ay az l IHl r IHr|qs c]; simpl; auto. now rewrite map_app, IHl, IHr. Qed.
+Lemma bdsp_link t : map gateR (bdsp_gates_q t) = bdsp_gates (treeR t).
+Proof. unfold bdsp_gates_q, bdsp_gates. now rewrite map_app, subs_link, bottom_up_link. Qed.
 
 (* ---------- path weights and sub-vector norms ---------- *)
 Open Scope R_scope.
 Fixpoint pathw (t : atree) (k : list bool) : R :=
-  match t, k with
-  | ANode _ ay az l r, v :: k' => if v then w1 ay az * pathw r k' else w0 ay az * pathw l k'
-  | _, _ => 1
+  match t with
+  | ALeaf => 1
+  | ANode _ ay az l r => match k with v :: k' => if v then w1 ay az * pathw r k' else w0 ay az * pathw l k' | [] => 1 end
+  | ASub qs c => Cn2 (F (ASub qs c) (place qs k))
   end.
 Lemma prob_pathw t : forall ch b, prob t ch b = pathw t (map (get b) ch).
 Proof.
-  induction t as [|q ay az l IHl r IHr]; intros ch b. reflexivity.
+  induction t as [|q ay az l IHl r IHr|qs c]; intros ch b; try reflexivity.
   destruct ch as [|c ch]. reflexivity. cbn [prob map pathw]. now rewrite IHl, IHr.
 Qed.
 
 (* M p = squared norm of the sub-vector below the path prefix p.  If every node splits M p into its two children by its
-   weights (checked numerically on the logged trees on every run), the weight of a full path k is M k / M [] *)
+   weights, and every sub-register state has squared amplitudes M (p ++ k) / M p (both checked numerically on the tree of
+   every run), the weight of a full path k is M k / M [] *)
 Fixpoint splits (t : atree) (M : list bool -> R) (p : list bool) : Prop :=
   match t with
   | ALeaf => True
   | ANode _ ay az l r =>
       w0 ay az * M p = M (p ++ [false]) /\ w1 ay az * M p = M (p ++ [true])
       /\ splits l M (p ++ [false]) /\ splits r M (p ++ [true])
+  | ASub qs c => forall k, length k = length qs -> Cn2 (F (ASub qs c) (place qs k)) * M p = M (p ++ k)
   end.
 Lemma pathw_splits t : forall d M p k, balanced d t -> length k = d -> splits t M p -> pathw t k * M p = M (p ++ k).
 Proof.
-  induction t as [|q ay az l IHl r IHr]; intros d M p k Hd Hk Hs.
-  - destruct d; [|destruct Hd]. destruct k; [|discriminate]. simpl. rewrite app_nil_r. ring.
+  induction t as [|q ay az l IHl r IHr|qs c]; intros d M p k Hd Hk Hs.
+  - simpl in Hd. subst. destruct k; [|discriminate]. simpl. rewrite app_nil_r. ring.
   - destruct d as [|d]; [destruct Hd|]. destruct Hd as [Bl Br]. destruct k as [|v k]; [discriminate|].
     simpl in Hk. destruct Hs as [S0 [S1 [Sl Sr]]]. cbn [pathw]. destruct v.
     + rewrite Rmult_assoc, (Rmult_comm (pathw r k)), <- Rmult_assoc, S1.
       rewrite Rmult_comm, (IHr d M (p ++ [true]) k Br) by (auto; lia). now rewrite <- app_assoc.
     + rewrite Rmult_assoc, (Rmult_comm (pathw l k)), <- Rmult_assoc, S0.
       rewrite Rmult_comm, (IHl d M (p ++ [false]) k Bl) by (auto; lia). now rewrite <- app_assoc.
+  - simpl in Hd. cbn [pathw]. apply Hs. congruence.
 Qed.
 
 (* ---------- the statement used by the check ---------- *)
-Theorem dcsp_model_marginal (t : qtree) (d : nat) : qbalanced d t = true -> nodupb (qqubits t) = true ->
+Theorem bdsp_model_marginal (t : qtree) (d : nat) :
+  qbalanced d t = true -> nodupb (qqubits t) = true -> localb t = true -> normed (treeR t) ->
   forall b, (forall p, ~ In p (qqubits t) -> get b p = false) ->
-  sumq (rest (treeR t)) (fun x => Cn2 (drun (map gateR (bottom_up_q t)) TopDownWalk.ket0 x)) b
+  sumq (rest (treeR t)) (fun x => Cn2 (drun (map gateR (bdsp_gates_q t)) TopDownWalk.ket0 x)) b
   = pathw (treeR t) (map (get b) (qchain t)).
 Proof.
-  intros Hb Hn b Hz. rewrite bottom_up_link.
-  rewrite (dcsp_marginal (treeR t) d).
+  intros Hb Hn Hl Hm b Hz. rewrite bdsp_link.
+  rewrite (bdsp_marginal (treeR t) d).
   - rewrite prob_pathw, chain_treeR. reflexivity.
   - now apply balanced_treeR.
+  - now apply wfsub_treeR.
+  - exact Hm.
   - rewrite qubits_treeR. now apply nodupb_sound.
   - intros p Hp. apply Hz. now rewrite <- qubits_treeR.
+Qed.
+
+(* without sub-registers (divide-and-conquer initializer) no normalisation premise is left *)
+Fixpoint nosub (t : qtree) : bool :=
+  match t with QLeaf => true | QNode _ _ _ l r => nosub l && nosub r | QSub _ _ => false end.
+Lemma nosub_normed t : nosub t = true -> normed (treeR t).
+Proof.
+  induction t as [|q ay az l IHl r IHr|qs c]; intros H; simpl in *; auto; try discriminate.
+  apply andb_prop in H as [H1 H2]. split; auto.
+Qed.
+Lemma nosub_local t : nosub t = true -> localb t = true.
+Proof.
+  induction t as [|q ay az l IHl r IHr|qs c]; intros H; simpl in *; auto; try discriminate.
+  apply andb_prop in H as [H1 H2]. now rewrite IHl, IHr.
+Qed.
+Theorem dcsp_model_marginal (t : qtree) (d : nat) : qbalanced d t = true -> nodupb (qqubits t) = true -> nosub t = true ->
+  forall b, (forall p, ~ In p (qqubits t) -> get b p = false) ->
+  sumq (rest (treeR t)) (fun x => Cn2 (drun (map gateR (bdsp_gates_q t)) TopDownWalk.ket0 x)) b
+  = pathw (treeR t) (map (get b) (qchain t)).
+Proof.
+  intros Hb Hn Hs. apply (bdsp_model_marginal t d); auto. now apply nosub_local. now apply nosub_normed.
 Qed.
